@@ -681,7 +681,7 @@ def cases(tier, seed):
         for xs in itertools.product(A2, repeat=n):
             for metric in S.METRICS:
                 yield rp_case("RecurrencePlot", [list(p) for p in xs], None, metric,
-                              rich=(n <= 2 or T), rqa_every=6, all_metrics=(metric == "supremum"))
+                              rich=(n <= 2 or (T and n == 3)), rqa_every=6, all_metrics=(metric == "supremum"))
     # ---- float-width family
     for x in seqs(ALPH_W, 1, 4):
         w = {"cls": "RecurrencePlot", "x": x, "metric": "supremum", "missing_values": False, "exact": True,
@@ -770,7 +770,7 @@ def cases(tier, seed):
             for y in itertools.product(ALPH, repeat=n):
                 yield from joint_cases("JointRecurrencePlot", list(x), list(y),
                                        jembs if (T or n <= 2) else jembs[:2], 4)
-    for n, cnt in ((4, 2500 if T else 150), (5, 2500 if T else 150)):
+    for n, cnt in ((4, 1000 if T else 150), (5, 1000 if T else 150)):
         for _ in range(cnt):
             x = [ALPH[i] for i in rng.randint(3, size=n)]
             y = [ALPH[i] for i in rng.randint(3, size=n)]
@@ -779,7 +779,7 @@ def cases(tier, seed):
         for x in itertools.product(ALPH, repeat=n):
             for y in itertools.product(ALPH, repeat=n):
                 yield from joint_cases("JointRecurrenceNetwork", list(x), list(y), jembs[:2], 5)
-    for n, cnt in ((3, 0 if T else 60), (4, 600 if T else 40), (5, 600 if T else 30)):
+    for n, cnt in ((3, 0 if T else 60), (4, 300 if T else 40), (5, 300 if T else 30)):
         for _ in range(cnt):
             x = [ALPH[i] for i in rng.randint(3, size=n)]
             y = [ALPH[i] for i in rng.randint(3, size=n)]
